@@ -334,6 +334,11 @@ func buildReport(p *Prog, rr *RunResult, obls []*Obligation, prop, tier string, 
 			rep.Lines = append(rep.Lines, fmt.Sprintf("VIOLATION property=%s replay=%s no-failing-input-found", prop, path))
 		}
 	}
+	for _, o := range obls {
+		if o.Dependency {
+			cov.Vacuity["obligations_from_dependency_closure"]++
+		}
+	}
 	for _, u := range rr.Unsupported {
 		rep.Lines = append(rep.Lines, "govc: unsupported: "+u)
 	}
